@@ -244,6 +244,18 @@ func (matrix *DenseFloat64Matrix) Tip() {
   matrix.rowMax, matrix.colMax = matrix.colMax, matrix.rowMax
 }
 func (matrix *DenseFloat64Matrix) AsVector() Vector {
+  if matrix.cols < matrix.colMax || matrix.rows < matrix.rowMax {
+    // this is a view on a larger matrix, copy the elements
+    // that belong to it
+    n, m := matrix.Dims()
+    v := make([]float64, n*m)
+    for i := 0; i < n; i++ {
+      for j := 0; j < m; j++ {
+        v[i*m + j] = matrix.values[matrix.index(i, j)]
+      }
+    }
+    return DenseFloat64Vector(v)
+  }
   return DenseFloat64Vector(matrix.values)
 }
 func (matrix *DenseFloat64Matrix) storageLocation() uintptr {
@@ -333,7 +345,7 @@ func (matrix *DenseFloat64Matrix) IsSymmetric(epsilon float64) bool {
   return true
 }
 func (matrix *DenseFloat64Matrix) AsConstVector() ConstVector {
-  return DenseFloat64Vector(matrix.values)
+  return matrix.AsVector()
 }
 /* implement ScalarContainer
  * -------------------------------------------------------------------------- */
